@@ -218,6 +218,7 @@ fn main() {
     macro_rules! add {
         ($U:ty, $I:ty) => {
             jobs_for::<$U, $I>(&mut jobs);
+            checks::siblings::topic_jobs::<$U, $I>(&mut jobs, checks::siblings::Group::Mul, 150, FACTOR);
         };
     }
     for_all_cfgs!(add);
@@ -225,7 +226,7 @@ fn main() {
     runner::main(
         Property {
             id: "C02",
-            rule: "Operand pairs come from (1) the structured W-bit pattern generators (uniform, digit-aligned bit runs, extreme digits, boundary values, derived second operand), (2) edge-of-overflow construction b = floor((B+delta)/|a|)+eps for B in {2^W-1, 2^(W-1)-1, 2^(W-1)}, delta, eps in {-1,0,1}, all sign combinations, (3) positional operands: one non-zero digit each at positions i, j with i+j in {N-2, N-1, N}. Every case checks overflowing/checked/wrapping/saturating/strict/unchecked mul against the exact product in an independent reference integer; unsigned cases also check widening_mul, carrying_mul and a 2x2-word product chained from carrying_mul/carrying_add. NON-TRIVIAL: both operands have >= 2 significant digits (N >= 2), or the product's magnitude lies within one bit of the representable bound, or (widening) the high half is non-zero. distinct = distinct (profile, job, inputs) among non-trivial cases by 64-bit hash. 8-bit configuration enumerated completely. A deterministic SWEEP additionally enumerates, per configuration, position-specific inputs (2^k - 1, 2^k, 2^k + 1 with their negations and complements; carry / borrow chains and power-of-two products ending at every bit position k; every shift / rotate amount; every bit index; every float exponent) - all positions on types up to 1088 bits, a sparse selection of a few hundred positions on wider types in the quick tier, all positions in the thorough tier.",
+            rule: "Operand pairs come from (1) the structured W-bit pattern generators (uniform, digit-aligned bit runs, extreme digits, boundary values, derived second operand), (2) edge-of-overflow construction b = floor((B+delta)/|a|)+eps for B in {2^W-1, 2^(W-1)-1, 2^(W-1)}, delta, eps in {-1,0,1}, all sign combinations, (3) positional operands: one non-zero digit each at positions i, j with i+j in {N-2, N-1, N}. Every case checks overflowing/checked/wrapping/saturating/strict/unchecked mul against the exact product in an independent reference integer; unsigned cases also check widening_mul, carrying_mul and a 2x2-word product chained from carrying_mul/carrying_add. NON-TRIVIAL: both operands have >= 2 significant digits (N >= 2), or the product's magnitude lies within one bit of the representable bound, or (widening) the high half is non-zero. distinct = distinct (profile, job, inputs) among non-trivial cases by 64-bit hash. 8-bit configuration enumerated completely. A deterministic SWEEP additionally enumerates, per configuration, position-specific inputs (2^k - 1, 2^k, 2^k + 1 with their negations and complements; carry / borrow chains and power-of-two products ending at every bit position k; every shift / rotate amount; every bit index; every float exponent) - all positions on types up to 1088 bits, a sparse selection of a few hundred positions on wider types in the quick tier, all positions in the thorough tier. SIBLINGS job (per configuration): the entry points of this property's own operations that other properties anchor - the six operand forms of the std operators (a op b, &a op b, a op &b, &a op &b, a op= b, a op= &b; for shifts every primitive and bnum-typed amount type), Sum/Product, and the num_traits forwarders - are compared with the inherent method / const twin (same value, same panic outcome), so that a regression confined to one rarely used entry point is reported by the check of the operation it belongs to as well as by C17/C18.",
             assumptions: &[
                 "digits()/from_digits()/to_bits()/from_bits() are the trusted observation channel",
                 "reference integer Z (schoolbook multiply through u64, self-tested against i128 and python vectors on every run)",
